@@ -19,3 +19,15 @@ package clients
 // default or (with --invert) the invert flag and the pattern as given.
 //@ func (*baseClient).init
 //@   at-call regex.New [flag-from-args] arg0 == c.Args.RegexStr && arg1 == ite(c.Args.RegexInvert, 2, 1)
+
+// ---- one connection per discovered server (C18) ---------------------------------------------------
+//@ func (*baseClient).makeConnections
+//@   bind list == ServerList
+//@   at-call discovery.New [from-the-arguments] arg0 == c.Args.Discovery && arg1 == c.Args.ServersStr
+//@   at-call makeConnection [one-per-entry] arg1 == list[rangeindex + 1]
+//@   loop 1 invariant [one-per-entry] -1 <= rangeindex && rangeindex < len(list) && len(c.connections) == old(len(c.connections)) + rangeindex + 1
+//@   ensures [one-per-entry] len(c.connections) == old(len(c.connections)) + len(list)
+//@ func (*baseClient).makeConnection
+//@   assigns nothing
+//@ func newTailStats
+//@   assigns nothing
